@@ -16,8 +16,9 @@ level=exploration
 case "$prop" in C09|C10) level=fault_enumeration;; esac
 bins=/verif/bin/archesim
 case "$prop" in C01|C09|C16) bins=/verif/bin/archesim,/verif/bin/archesim,/verif/bin/archesim,/verif/bin/archesim_tiny;; esac
+case "$prop" in C14) bins=/verif/bin/archesim_126,/verif/bin/archesim_126,/verif/bin/archesim_plain,/verif/bin/archesim;; esac
 case "$prop" in
-  C13|C14|C18|C19) exec /verif/bin/archesim special "$prop" -tier "$tier" -seed "$seed" -evidence "$evdir/$prop.json";;
+  C13|C18|C19) exec /verif/bin/archesim special "$prop" -tier "$tier" -seed "$seed" -evidence "$evdir/$prop.json";;
 esac
 exec /verif/bin/archesim run -prop "$prop" -tier "$tier" -seed "$seed" -bins "$bins" -level "$level" \
   -evidence "$evdir/$prop.json" -known /verif/known_findings.json -out /verif/replays
